@@ -270,12 +270,15 @@ Fixpoint render_go (dv : string) (v : N) (m : string) (st : pstate) (s : string)
 
 Definition is_trail_sep (a : ascii) : bool :=
   (Ascii.eqb a "_"%char || Ascii.eqb a "-"%char || Ascii.eqb a "."%char)%bool.
-Fixpoint drop_while_sep (s : string) : string :=
+(* `while name.ends_with('_') || name.ends_with('-') || name.ends_with('.') { name.pop(); }` (utils.rs:91-94),
+   written from the right end: a character goes iff it is a separator and everything after it went *)
+Fixpoint trim_trailing_seps (s : string) : string :=
   match s with
   | EmptyString => EmptyString
-  | String a r => if is_trail_sep a then drop_while_sep r else s
+  | String a r =>
+      let r' := trim_trailing_seps r in
+      if (String.eqb r' "" && is_trail_sep a)%bool then EmptyString else String a r'
   end.
-Definition trim_trailing_seps (s : string) : string := rev_string (drop_while_sep (rev_string s)).
 
 Definition render_migration_name (pattern : string) (v : N) (sanitized : string) : string :=
   let dv := fmt_version 4 v in
